@@ -142,7 +142,20 @@ def lean_check(prop: str, tier: str = "quick", need_driver: bool = True) -> Lean
     res = LeanResult()
     lock = _lock()
     try:
-        res.gen_changed = run_gen_tables()
+        try:
+            res.gen_changed = run_gen_tables()
+        except RuntimeError as e:
+            # The translator can no longer read the live objects (a table or pattern changed shape): the generated tables are
+            # stale, so nothing proved over them says anything about this tree. Obligations count as broken; the harness still
+            # runs (with the previously built driver) and searches for a concrete failing input.
+            res.built = False
+            res.build_log = "translator failed:\n" + str(e)[-3000:]
+            res.failed_decls = ["translate/gen_tables.py"]
+            src = (LEAN / "BSModel" / "Props" / f"{prop}.lean")
+            if src.exists():
+                for m in re.finditer(r"^theorem\s+(\S+)", strip_lean_comments(src.read_text()), flags=re.M):
+                    res.theorems.setdefault(f"BS.Props.{prop}.{m.group(1)}", ["<not built: translator failed>"])
+            return res
         targets = [f"BSModel.Props.{prop}", "BSModel.AuditCmd"]
         p = subprocess.run(["lake", "build", *targets], cwd=LEAN, capture_output=True, text=True)
         res.build_log = p.stdout + p.stderr
